@@ -99,3 +99,62 @@ Proof.
   split; [apply exts_symb_sound; vm_compute; reflexivity|].
   split; [intros a b; unfold pay_join; cbn; apply N.eqb_sym | vm_compute; reflexivity].
 Qed.
+
+(* ==== sequence-level uniqueness (work package compose1) ========================================================= *)
+(* C02_decomposition_unique, FULL: for a permutation T' of the table T (any iteration order of the hash table), every
+   node n of compress_kmers T has a partner n' among the nodes of compress_kmers T' with the same key set and
+   - the same sequence, or
+   - (unstranded only) the reverse-complemented sequence, or
+   - when n is an isolated cycle ([cycle_node]: the key of its last k-mer is mergeably linked to the key of its first),
+     a k-mer list that is a rotation ([rot r]) of the k-mer list of n or (unstranded only) of rc n.
+   (By symmetry of Permutation the same holds from T' to T, so the correspondence is a bijection of the two node
+   lists, the key sets being disjoint.)  Payloads and terminal extensions are not compared here (C01 describes them per
+   node).  Proof: Proofs/ChainUnique.v (two chains of a deterministic, injective, reversal-symmetric step without
+   repeated vertex over the same vertex set are equal, reversed, or - if the chain closes - rotations) instantiated in
+   Proofs/UnitigSeqUnique.v with the k-mers of a node, each with the side through which the walk enters it, and the
+   static step knext read on keys, which does not depend on the order of the table. *)
+From DBG Require Import Proofs.ChainUnique Proofs.UnitigSeqUnique.
+
+Theorem C02_decomposition_unique : forall D reduce join K stranded, 1 <= K ->
+  (forall a b, join a b = join b a) -> forall T T' : table D,
+  tbl_ok D K stranded T -> exts_sym D stranded T -> Permutation T T' ->
+  exists nodes nodes', compress_kmers D reduce join stranded T = Some nodes /\
+    compress_kmers D reduce join stranded T' = Some nodes' /\
+    forall n, In n nodes -> exists n', In n' nodes' /\
+      (forall k, In k (node_keys D K stranded n) <-> In k (node_keys D K stranded n')) /\
+      (n_seq D n' = n_seq D n \/
+       (stranded = false /\ n_seq D n' = rc (n_seq D n)) \/
+       (cycle_node D join K stranded T n /\ exists r,
+          node_windows D K n' = rot r (node_windows D K n) \/
+          (stranded = false /\ node_windows D K n' = rot r (kmers K (rc (n_seq D n)))))).
+Proof. exact decomposition_unique. Qed.
+Print Assumptions C02_decomposition_unique.
+
+(* the generic lemma *)
+Theorem C02_chain_unique : forall (O V : Type) (nxt : O -> option O) (rv : O -> O) (vtx : O -> V),
+  (forall a, rv (rv a) = a) -> (forall a, rv a <> a) -> (forall a, vtx (rv a) = vtx a) ->
+  (forall a b, vtx a = vtx b -> b = a \/ b = rv a) ->
+  (forall a b c, nxt a = Some c -> nxt b = Some c -> a = b) -> (forall a b, nxt a = Some b -> nxt (rv b) = Some (rv a)) ->
+  forall P P' d, P <> [] -> ochain O nxt P -> ochain O nxt P' ->
+  NoDup (map vtx P) -> NoDup (map vtx P') -> (forall v, In v (map vtx P) <-> In v (map vtx P')) ->
+  P' = P \/ P' = rev (map rv P) \/
+  (nxt (last P d) = Some (hd d P) /\ exists r, P' = rot r P \/ P' = rot r (rev (map rv P))).
+Proof. exact ochain_unique. Qed.
+Print Assumptions C02_chain_unique.
+
+(* non-vacuity: the example table rotated by 8 positions: the five-k-mer node AACTCCGA comes out reverse-complemented
+   (TCGGAGTT), the other nodes unchanged *)
+Example C02_nonvacuous_unique :
+  let T' := skipn 8 C02_ex_table ++ firstn 8 C02_ex_table in
+  Permutation C02_ex_table T' /\
+  option_map (map (n_seq pay)) (compress_kmers pay pay_reduce (pay_join 0) false C02_ex_table) =
+    Some [[0;1;2;3]; [0;0;1;2]; [3;2;1;0]; [2;1;0;0;1]; [0;0;1;3;1;1;2;0]]%N /\
+  option_map (map (n_seq pay)) (compress_kmers pay pay_reduce (pay_join 0) false T') =
+    Some [[3;1;2;2;0;2;3;3]; [0;1;2;3]; [0;0;1;2]; [3;2;1;0]; [2;1;0;0;1]]%N /\
+  rc [0;0;1;3;1;1;2;0]%N = [3;1;2;2;0;2;3;3]%N.
+Proof.
+  cbv zeta. split.
+  - rewrite <- (firstn_skipn 8 C02_ex_table) at 1. apply Permutation_app_comm.
+  - repeat split; vm_compute; reflexivity.
+Qed.
+Print Assumptions C02_nonvacuous_unique.
